@@ -485,6 +485,43 @@ def main(prop: str, tier: str, seed: int, only: Optional[str] = None,
     nproc = min(len(tasks), int(os.environ.get('VERIF_JOBS', '16')))
     results = run_tasks(tasks, nproc, tier)
 
+    # A required class that a generated family did not reach gets up to three
+    # top-up rounds with seeds derived from VERIF_SEED before the run is
+    # declared vacuous (exit 2): with a few hundred cases per family a rare
+    # class is missed now and then, and that is neither a violation nor a
+    # reason to report nothing.  (Still a pure function of the seed.)
+    for attempt in (1, 2, 3):
+        if any(r.get('error') for r in results):
+            break
+
+        seen: Dict[str, set] = {}
+
+        for r in results:
+            seen.setdefault(r['family'], set()).update(r['classes'])
+
+        extra = []
+
+        for fam in mod.FAMILIES:
+            if (only and fam.name != only) or fam.enumerate is not None:
+                continue
+
+            want = fam.required.get(tier, fam.required.get('all', ()))
+
+            if any(label not in seen.get(fam.name, ()) for label in want):
+                nshards = max(1, min(fam.shards.get(tier, 16), 8))
+                budget = max(1, int(fam.budget.get(tier, 100) * scale))
+                per = -(-budget // (2 * nshards))
+
+                for shard in range(nshards):
+                    extra.append((prop, fam.name, tier,
+                                  seed + 1000003 * attempt, shard, nshards,
+                                  per))
+
+        if not extra:
+            break
+
+        results += run_tasks(extra, min(len(extra), nproc or 1), tier)
+
     errors_pre: List[str] = []
     errors = [r['error'] for r in results if r['error'] and
               not r['family'].startswith('__witness__:')]
